@@ -12,6 +12,11 @@ Tie: translator (T) + correspondence (C).
   point per stratum, mirror halves, 2u-1, quantiles), and compares
   `get_normal_wichura_draws(uniform_numbers=u)` on a grid dense in the tails with the code model
   and with the reference AS241.
+* `check_user_generators` drives `Database.generate_draws` with user-defined generators that deliver
+  arrays of every layout (right shape, right number of elements in the wrong shape, wrong number of
+  elements) next to native types: anything but (sample size, number of draws) must be refused by the
+  library error, and an accepted table must hold exactly what each generator delivered
+  (oracle in Python, and compared with `Draws.generateDraws`).
 """
 
 from __future__ import annotations
@@ -35,7 +40,9 @@ MANIFEST = dict(
     text='Proof (Lean 4): the array-doubling loops of get_halton_draws produce the radical-inverse sequence of base b after the skip, for every '
     'b >= 2, length and skip (C11.halton_is_radical_inverse, induction over the loop), values in [0,1); Latin hypercube places exactly one point in each '
     'stratum for any uniforms in [0,1) and any permutation (lhs_one_per_stratum), also after 2u-1; antithetic arrays are a first half and its mirror; '
-    'symmetric = 2u-1; shapes n x R (even R for antithetic types) as Database.generate_draws demands; the reference AS241 is odd and each branch receives '
+    'symmetric = 2u-1; shapes n x R (even R for antithetic types) as Database.generate_draws demands; generate_draws accepts exactly the shape (n, R) from any '
+    'generator - the same number of elements in another layout is refused (same_count_wrong_layout_refused, generate_draws_refuses_wrong_shape) - and the table '
+    'holds element [i][j] of each accepted array at [i][j][v] (generate_draws_table); the reference AS241 is odd and each branch receives '
     'an argument in the fitted range; the function as coded agrees with AS241 where the branch tests coincide (wichura_agrees_partial) and provably takes the '
     'wrong branch on (0,0.075) and (0.45,0.925] (known finding F02); the catalogue regenerated from the source matches its descriptions and entries '
     'advertising different bases start with different numbers. Tie: translator (ast of native_draws.py) + correspondence with recorded random streams.',
@@ -59,8 +66,10 @@ ASSUMPTIONS = [
 ]
 RULE = (
     'all 21 native types x sample sizes 1..7 x even draw counts 2..24 (plus odd counts as malformed stream) with recorded random streams; '
-    'get_normal_wichura_draws on a grid dense in both tails (1e-300 .. 1-1e-16) and random u; non-trivial = array with >= 4 elements, or a quantile '
-    'input outside [0.4, 0.6]'
+    'get_normal_wichura_draws on a grid dense in both tails (1e-300 .. 1-1e-16) and random u; Database.generate_draws (also through the deprecated alias, '
+    'cross-section and panel data) with 1..3 variables whose user-defined generators deliver every layout of array (exact in C / Fortran order, transposed, '
+    'one-dimensional, column, row, extra axis of length 1, another factorisation of n*R, other numbers of elements, empty, 0-d) mixed with native types; '
+    'non-trivial = array with >= 4 elements, or a quantile input outside [0.4, 0.6]'
 )
 
 W_F02 = 'draws.get_normal_wichura_draws: np.abs(uniform_numbers) <= 0.45'
@@ -866,6 +875,276 @@ def check_generate_draws(ctx, res, rng, odd=False):
             return
 
 
+# --------------------------------------------------------------------------- generate_draws with ANY generator
+
+W_GD = 'database.Database.generate_draws'
+
+# layouts of what a user-defined generator delivers; N = sample size, R = number of draws
+LAYOUTS_GOOD = ['exact', 'exact_f']
+LAYOUTS_SAME_COUNT = ['transposed', 'transposed_f', 'flat', 'column', 'row', 'lead1', 'trail1', 'refactor']
+LAYOUTS_OTHER_COUNT = ['double', 'more_rows', 'fewer_rows', 'more_cols', 'fewer_cols', 'empty', 'zero_d', 'swapped_plus']
+
+
+def _factor_pairs(m):
+    return [(a, m // a) for a in range(1, m + 1) if m % a == 0]
+
+
+def layout_dims(layout, N, R, rng):
+    """(numpy shape, memory order) of the array a generator with that layout delivers"""
+    order = 'F' if layout.endswith('_f') else 'C'
+    base = layout[:-2] if layout.endswith('_f') else layout
+    if base == 'exact':
+        return [N, R], order
+    if base == 'transposed':
+        return [R, N], order
+    if base == 'flat':
+        return [N * R], order
+    if base == 'column':
+        return [N * R, 1], order
+    if base == 'row':
+        return [1, N * R], order
+    if base == 'lead1':
+        return [1, N, R], order
+    if base == 'trail1':
+        return [N, R, 1], order
+    if base == 'refactor':
+        pairs = [p for p in _factor_pairs(N * R) if p != (N, R)]
+        return list(rng.choice(pairs)) if pairs else [N * R], order
+    if base == 'double':
+        return [2 * N, 2 * R], order
+    if base == 'more_rows':
+        return [N + 1, R], order
+    if base == 'fewer_rows':
+        return [N - 1, R], order
+    if base == 'more_cols':
+        return [N, R + 1], order
+    if base == 'fewer_cols':
+        return [N, R - 1], order
+    if base == 'empty':
+        return [0, R], order
+    if base == 'zero_d':
+        return [], order
+    if base == 'swapped_plus':
+        return [R, N + 1], order
+    raise ValueError(layout)
+
+
+def _count(dims):
+    k = 1
+    for d in dims:
+        k *= d
+    return k
+
+
+def gen_user_case(rng, forced=None):
+    """abstract case of Database.generate_draws with user-defined (and native) generators"""
+    N = rng.choice([1, 2, 3, 4, 5, 6])
+    R = rng.choice([1, 2, 3, 4, 5, 6, 8, 10])
+    if rng.random() < 0.15:
+        R = N                                   # transposed == exact: must be accepted
+    k = rng.randint(1, 3)
+    panel = rng.random() < 0.3
+    some_bad = rng.random() < 0.6
+    bad_at = rng.randrange(k) if some_bad else -1
+    kinds = []
+    for i in range(k):
+        if i == bad_at or (some_bad and rng.random() < 0.15):
+            kinds.append(rng.choice(LAYOUTS_SAME_COUNT if rng.random() < 0.65 else LAYOUTS_OTHER_COUNT))
+        elif rng.random() < 0.25:
+            kinds.append('native')
+        else:
+            kinds.append(rng.choice(LAYOUTS_GOOD))
+    if forced is not None:
+        kinds = list(forced)
+        k = len(kinds)
+    if 'native' in kinds and R % 2 == 1:
+        R += 1                                   # antithetic native types need an even number of draws
+    names = rng.sample(['xi', 'b10', 'b2', 'eps', 'Zeta', 'a_draw'], k)
+    vars_ = []
+    for i, kind in enumerate(kinds):
+        if kind == 'native':
+            vars_.append({'name': names[i], 'type': rng.choice(list(native())), 'layout': 'native'})
+            continue
+        dims, order = layout_dims(kind, N, R, rng)
+        values = [rng.randrange(0, 1024) / 1024.0 for _ in range(_count(dims))]
+        vars_.append({'name': names[i], 'type': f'USER_{i}_{kind.upper()}', 'layout': kind, 'dims': dims, 'order': order, 'values': values})
+    dict_order = list(range(k))
+    rng.shuffle(dict_order)
+    return {'kind': 'user_generators', 'N': N, 'R': R, 'panel': panel, 'obs_per_individual': [rng.randint(1, 3) for _ in range(N)] if panel else None,
+            'vars': vars_, 'dict_order': dict_order, 'entry': rng.choice(['generate_draws', 'generate_draws', 'generateDraws'])}
+
+
+def run_user_case(case, stream):
+    """drive the real Database.generate_draws; returns (outcome, calls, delivered) where outcome is
+    {'err': kind} or {'table': ndarray}, calls[i] the (sample_size, number_of_draws) pairs generator i was
+    asked for, delivered[i] the array user generator i handed over"""
+    import warnings
+    import pandas as pd
+    import biogeme.database as db
+    import biogeme.deprecated as dep
+    from biogeme.exceptions import BiogemeError
+    from biogeme.native_draws import RandomNumberGeneratorTuple
+
+    N, R = case['N'], case['R']
+    if case['panel']:
+        ids = [i + 1 for i, c in enumerate(case['obs_per_individual']) for _ in range(c)]
+        frame = pd.DataFrame({'id': [float(i) for i in ids], 'x': [float(j) for j in range(len(ids))]})
+    else:
+        frame = pd.DataFrame({'x': [float(i) for i in range(N)], 'y': [1.0] * N})
+    d = db.Database('c11user', frame)
+    if case['panel']:
+        d.panel('id')
+    calls = {i: [] for i in range(len(case['vars']))}
+    delivered = {}
+    user = {}
+    for i, v in enumerate(case['vars']):
+        if v['layout'] == 'native':
+            continue
+        a = np.array(v['values'], dtype=float).reshape(tuple(v['dims']))
+        if v['order'] == 'F' and a.ndim >= 2:
+            a = np.asfortranarray(a)
+        delivered[i] = a
+
+        def g(sample_size, number_of_draws, i=i, a=a):
+            calls[i].append([int(sample_size), int(number_of_draws)])
+            return a
+
+        user[v['type']] = RandomNumberGeneratorTuple(g, f'user generator delivering shape {v["dims"]}')
+    if user:
+        d.set_random_number_generators(user)
+    names = [v['name'] for v in case['vars']]
+    types = {case['vars'][i]['name']: case['vars'][i]['type'] for i in case['dict_order']}
+    entry = case['entry']
+    if entry == 'generateDraws' and getattr(dep, 'RAISE_EXCEPTION', False):
+        entry = 'generate_draws'
+    with patched(stream), warnings.catch_warnings():
+        warnings.simplefilter('ignore')
+        try:
+            out = getattr(d, entry)(types, names, R)
+            outcome = {'table': np.asarray(out)}
+        except BiogemeError:
+            outcome = {'err': 'BiogemeError'}
+        except Exception as e:  # noqa: BLE001
+            outcome = {'err': core.exc_kind(e)}
+    return outcome, calls, delivered
+
+
+def user_case_verdict(case, outcome, calls, delivered, stream):
+    """the oracle of the statement for Database.generate_draws with any generator: an array that is not of
+    shape (sample size, number of draws) is refused by the library error; otherwise the table is
+    observations x draws x variables and holds, for each variable, exactly what its generator delivered.
+    Returns ([(what, observed, expected)], arrays) — arrays[i] = the (N, R) array of variable i (or None)"""
+    N, R = case['N'], case['R']
+    vs = case['vars']
+    k = len(vs)
+    bad = [i for i, v in enumerate(vs) if v['layout'] != 'native' and list(v['dims']) != [N, R]]
+    out = []
+    if bad:
+        v = vs[bad[0]]
+        if outcome.get('err') != 'BiogemeError':
+            obs = outcome['err'] if 'err' in outcome else f'accepted, table of shape {list(outcome["table"].shape)}'
+            same = _count(v['dims']) == N * R
+            out.append((f'a generator delivering an array of shape {tuple(v["dims"])} instead of ({N}, {R})'
+                        f'{" (same number of elements, other layout)" if same else ""} is not refused by the library error', obs, 'BiogemeError'))
+        return out, None
+    if 'err' in outcome:
+        out.append((f'generate_draws raises {outcome["err"]} although every generator delivers shape ({N}, {R})', outcome['err'], f'table {N} x {R} x {k}'))
+        return out, None
+    t = outcome['table']
+    if list(t.shape) != [N, R, k]:
+        out.append(('generate_draws: wrong shape of the table', list(t.shape), [N, R, k]))
+        return out, None
+    # every generator asked exactly once for (sample size, number of draws)
+    for i, v in enumerate(vs):
+        if v['layout'] != 'native' and calls[i] != [[N, R]]:
+            out.append((f'the generator of variable {i} is not asked once for (sample size, number of draws)', calls[i], [[N, R]]))
+    # contents: natives replayed on the recorded stream in the order of the names
+    st2 = Stream(us=stream.us, perms=stream.perms)
+    arrays = []
+    for i, v in enumerate(vs):
+        if v['layout'] == 'native':
+            r = run_type(v['type'], N, R, st2)
+            exp = np.asarray(r['rows'], dtype=float) if 'rows' in r and r['shape'] == [N, R] else None
+            if exp is None:
+                out.append((f'variable {i}: native type {v["type"]} could not be regenerated', r.get('err', r.get('shape')), [N, R]))
+                arrays.append(None)
+                continue
+        else:
+            exp = np.array(v['values'], dtype=float).reshape(N, R)
+        arrays.append(exp)
+        got = np.asarray(t[:, :, i], dtype=float)
+        if got.shape != exp.shape or [f2b(x) for x in got.reshape(-1).tolist()] != [f2b(x) for x in exp.reshape(-1).tolist()]:
+            ij = next(((a, b) for a in range(N) for b in range(R) if f2b(float(got[a, b])) != f2b(float(exp[a, b]))), (0, 0))
+            out.append((f'table[:, :, {i}] is not the array the generator of variable {i} ({v["type"]}) delivered: first difference at [{ij[0]}][{ij[1]}]',
+                        got.tolist()[ij[0]][:4], exp.tolist()[ij[0]][:4]))
+    return out, arrays
+
+
+def check_user_generators(ctx, res, rng, use_model=True, case=None):
+    case = case or gen_user_case(rng)
+    N, R = case['N'], case['R']
+    if case.get('us') is not None:
+        st = Stream(us=case['us'], perms=case.get('perms') or [])
+    else:
+        st = Stream(rng, edges=False)
+    outcome, calls, delivered = run_user_case(case, st)
+    case = {**case, 'us': list(st.us), 'perms': [list(p) for p in st.perms]}
+    layouts = [v['layout'] for v in case['vars']]
+    res.count({k: case[k] for k in ('N', 'R', 'panel', 'vars', 'dict_order', 'entry')}, nontrivial=N * R >= 4)
+    for lay in layouts:
+        res.tally(f'user_generators:{lay}')
+    res.tally('user_generators:panel' if case['panel'] else 'user_generators:cross-section')
+    problems, arrays = user_case_verdict(case, outcome, calls, delivered, st)
+    for what, obs, exp in problems:
+        res.violate(what, case, obs, exp, where=W_GD)
+    if not use_model:
+        return
+    req_vars = []
+    for i, v in enumerate(case['vars']):
+        if v['layout'] == 'native':
+            a = arrays[i] if arrays is not None and arrays[i] is not None else None
+            req_vars.append({'dims': [N, R], 'flat': [f2b(x) for x in a.reshape(-1).tolist()] if a is not None else []})
+        else:
+            req_vars.append({'dims': list(v['dims']), 'flat': [f2b(x) for x in v['values']]})
+    native_unknown = arrays is None and any(v['layout'] == 'native' for v in case['vars'])
+
+    def cb(a):
+        if 'refused' in a:
+            if outcome.get('err') != 'BiogemeError':
+                res.diverge(f'generate_draws: the model refuses variable {a["refused"]} (Draws.generateDraws), the code does not', case, a,
+                            outcome.get('err') or list(outcome['table'].shape))
+            return
+        if 'err' in outcome:
+            res.diverge('generate_draws: the model accepts (Draws.generateDraws), the code raises', case, 'table', outcome['err'])
+            return
+        if native_unknown:
+            return
+        m = a['table']
+        t = outcome['table']
+        got = [[[f2b(float(x)) for x in cell] for cell in row] for row in t.tolist()] if t.ndim == 3 else None
+        if got != m:
+            res.diverge('generate_draws: table vs Draws.drawsTable (bit for bit)', case, str(m)[:120], str(got)[:120])
+
+    ctx.batch.add({'op': 'generate_draws', 'n': N, 'R': R, 'vars': req_vars}, cb)
+
+
+def _user_corpus():
+    """fixed cases that run first: each ill-shaped layout on its own (5 observations x 8 draws, the layout
+    class a past mutant accepted), well-shaped arrays in both memory orders, a mix"""
+    rng = core.rng_for('C11-user-corpus', 0)
+    out = []
+    for lay in LAYOUTS_SAME_COUNT + LAYOUTS_OTHER_COUNT + LAYOUTS_GOOD:
+        c = gen_user_case(rng, forced=[lay])
+        c.update({'N': 5, 'R': 8, 'panel': False, 'obs_per_individual': None, 'entry': 'generate_draws', 'dict_order': [0]})
+        v = c['vars'][0]
+        v['dims'], v['order'] = layout_dims(lay, 5, 8, rng)
+        v['values'] = [rng.randrange(0, 1024) / 1024.0 for _ in range(_count(v['dims']))]
+        out.append(c)
+    out.append(gen_user_case(rng, forced=['exact', 'native', 'transposed']))
+    out.append(gen_user_case(rng, forced=['exact_f', 'exact', 'native']))
+    return out
+
+
 def check_malformed(ctx, res, rng):
     """sizes that must be refused, compared with the model's error cases"""
     for name in rng.sample(list(native()), 6):
@@ -946,6 +1225,8 @@ def check(ctx) -> Result:
         distinct_bases(ctx, res)
         for name in ('NORMAL_HALTON3', 'NORMAL_HALTON5', 'NORMAL_HALTON2'):
             check_type(ctx, res, name, 2, 6, rng)
+        for c in _user_corpus():
+            check_user_generators(ctx, res, rng, case=c)
         # all catalogued types
         names = list(native())
         for name in names:
@@ -963,6 +1244,8 @@ def check(ctx) -> Result:
             check_generate_draws(ctx, res, rng)
         for _ in range(ctx.n(8, 200)):
             check_generate_draws(ctx, res, rng, odd=True)
+        for _ in range(ctx.n(150, 4000)):
+            check_user_generators(ctx, res, rng)
         check_malformed(ctx, res, rng)
         ctx.batch.flush()
     return res
@@ -995,6 +1278,10 @@ def search(ctx, res, broken):
         for _ in range(40):
             check_generate_draws(ctx, r2, rng)
             check_generate_draws(ctx, r2, rng, odd=True)
+        for c in _user_corpus():
+            check_user_generators(ctx, r2, rng, use_model=False, case=c)
+        for _ in range(300):
+            check_user_generators(ctx, r2, rng, use_model=False)
         # every catalogue entry against its description, dynamically (what the generated obligation states)
         for name, t in native().items():
             adv = parse_description(t.description)
@@ -1035,6 +1322,8 @@ def replay(ctx, obj):
         elif k == 'generate_draws':
             rr = core.rng_for('C11-replay', 0)
             check_generate_draws(ctx, r, rr, odd=case['R'] % 2 == 1)
+        elif k == 'user_generators':
+            check_user_generators(ctx, r, core.rng_for('C11-replay', 0), use_model=False, case=case)
         elif k == 'distinct':
             distinct_bases(ctx, r)
         else:
